@@ -193,3 +193,92 @@ Proof.
   intros E. apply split_at_colon in E; try assumption. destruct E as [-> E].
   apply udp_dec_inj in E; try assumption. now subst.
 Qed.
+
+(** * the printed address identifies the user: IPv4, IPv6 and zoned addresses *)
+
+Lemma split_at_byte (c : byte) (a a' x x' : bytes) :
+  bytes_has c a = false -> bytes_has c a' = false ->
+  a ++ c :: x = a' ++ c :: x' -> a = a' /\ x = x'.
+Proof.
+  revert a'. induction a as [|b a IH]; intros [|b' a']; cbn [app bytes_has]; intros Ha Ha' E.
+  - inversion E. auto.
+  - inversion E; subst. rewrite byte_eqb_refl in Ha'. discriminate.
+  - inversion E; subst. rewrite byte_eqb_refl in Ha. discriminate.
+  - inversion E; subst. apply orb_false_iff in Ha, Ha'. destruct (IH a') as [-> ->]; tauto.
+Qed.
+
+Lemma bytes_has_app c a b : bytes_has c (a ++ b) = bytes_has c a || bytes_has c b.
+Proof. induction a as [|x a IH]; cbn [app bytes_has]; [reflexivity|]. now rewrite IH, orb_assoc. Qed.
+
+(* what net.IP.String / MarshalText can print, and an interface name without ']' or '%' *)
+Definition uip_char (b : byte) : bool :=
+  let n := Z_of_byte b in
+  ((48 <=? n) && (n <=? 57)) || ((97 <=? n) && (n <=? 102)) || ((65 <=? n) && (n <=? 70)) || (n =? 58) || (n =? 46).
+Definition uaddr_wf (a : uaddr) : Prop :=
+  forallb uip_char (ua_ip a) = true /\
+  bytes_has "]"%byte (ua_zone a) = false /\ 0 <= ua_port a <= 65535.
+
+Lemma uip_no (c : byte) ip : uip_char c = false -> forallb uip_char ip = true -> bytes_has c ip = false.
+Proof.
+  intros Hc. induction ip as [|b ip IH]; cbn [forallb bytes_has]; [reflexivity|].
+  intros H. apply andb_true_iff in H. destruct H as [Hb H]. rewrite (IH H), orb_false_r.
+  destruct (Byte.eqb b c) eqn:E; [|reflexivity]. apply Byte.byte_dec_bl in E. subst. congruence.
+Qed.
+
+Definition uhost (a : uaddr) : bytes :=
+  match ua_zone a with [] => ua_ip a | z => ua_ip a ++ "%"%byte :: z end.
+
+Lemma uaddr_string_host a :
+  uaddr_string (Some a) =
+  if bytes_has ":"%byte (uhost a)
+  then "["%byte :: uhost a ++ "]"%byte :: ":"%byte :: udp_dec (ua_port a)
+  else uhost a ++ ":"%byte :: udp_dec (ua_port a).
+Proof. reflexivity. Qed.
+
+Lemma uhost_inj a b :
+  forallb uip_char (ua_ip a) = true -> forallb uip_char (ua_ip b) = true ->
+  uhost a = uhost b -> ua_ip a = ua_ip b /\ ua_zone a = ua_zone b.
+Proof.
+  intros Ha Hb. pose proof (uip_no "%"%byte _ eq_refl Ha) as Pa. pose proof (uip_no "%"%byte _ eq_refl Hb) as Pb.
+  unfold uhost. destruct (ua_zone a) as [|z zs], (ua_zone b) as [|z' zs']; intros E.
+  - auto.
+  - exfalso. rewrite E, bytes_has_app in Pa. cbn in Pa. rewrite orb_true_r in Pa. discriminate.
+  - exfalso. rewrite <- E, bytes_has_app in Pb. cbn in Pb. rewrite orb_true_r in Pb. discriminate.
+  - apply split_at_byte in E; assumption.
+Qed.
+
+Lemma uhost_no_bracket a : uaddr_wf a -> bytes_has "]"%byte (uhost a) = false.
+Proof.
+  intros (Hip & Hz & _). pose proof (uip_no "]"%byte _ eq_refl Hip) as P.
+  unfold uhost. destruct (ua_zone a) as [|z zs] eqn:E; [exact P|].
+  rewrite bytes_has_app, P. cbn [orb bytes_has]. exact Hz.
+Qed.
+
+Theorem uaddr_string_inj a b :
+  uaddr_wf a -> uaddr_wf b -> uaddr_string (Some a) = uaddr_string (Some b) -> a = b.
+Proof.
+  intros Wa Wb. rewrite !uaddr_string_host.
+  pose proof (uhost_no_bracket a Wa) as Ba. pose proof (uhost_no_bracket b Wb) as Bb.
+  destruct Wa as (Ia & Za & Pa), Wb as (Ib & Zb & Pb).
+  assert (Fin : uhost a = uhost b -> udp_dec (ua_port a) = udp_dec (ua_port b) -> a = b).
+  { intros Eh Ed. apply uhost_inj in Eh; try assumption. destruct Eh as [E1 E2].
+    apply udp_dec_inj in Ed; try assumption. destruct a, b; cbn in *; congruence. }
+  destruct (bytes_has ":"%byte (uhost a)) eqn:Ca, (bytes_has ":"%byte (uhost b)) eqn:Cb; intros E.
+  - inversion E as [E']. apply split_at_byte in E'; try assumption. destruct E' as [Eh Er].
+    inversion Er. auto.
+  - (* "[..." against a host without ':' : the first character differs *)
+    exfalso. destruct (uhost b) as [|c hb] eqn:Hb0; cbn [app] in E; [inversion E|].
+    inversion E as [[Ec Et]]. subst c.
+    (* '[' is the first character of b's host: impossible *)
+    unfold uhost in Hb0. destruct (ua_ip b) as [|i ib] eqn:Eib.
+    + destruct (ua_zone b); cbn in Hb0; [discriminate|inversion Hb0].
+    + cbn [forallb] in Ib. apply andb_true_iff in Ib. destruct Ib as [Ic _].
+      destruct (ua_zone b); cbn [app] in Hb0; inversion Hb0; subst i; discriminate Ic.
+  - exfalso. destruct (uhost a) as [|c ha] eqn:Ha0; cbn [app] in E; [inversion E|].
+    inversion E as [[Ec Et]]. subst c.
+    unfold uhost in Ha0. destruct (ua_ip a) as [|i ia] eqn:Eia.
+    + destruct (ua_zone a); cbn in Ha0; [discriminate|inversion Ha0].
+    + cbn [forallb] in Ia. apply andb_true_iff in Ia. destruct Ia as [Ic _].
+      destruct (ua_zone a); cbn [app] in Ha0; inversion Ha0; subst i; discriminate Ic.
+  - apply split_at_byte in E; try assumption. destruct E as [Eh Er]. auto.
+Qed.
